@@ -88,6 +88,35 @@ impl Connection {
     }
 }
 
+impl Connection {
+    /// Queue raw frame bytes for the next packet of `space` (0 Initial, 1 Handshake, 2 Data) and
+    /// force that packet to be sent (PING). Returns false if the space has no keys (any more).
+    pub fn verif_inject_frames(&mut self, space: u8, bytes: Vec<u8>) -> bool {
+        let sp = match space {
+            0 => SpaceId::Initial,
+            1 => SpaceId::Handshake,
+            _ => SpaceId::Data,
+        };
+        if self.spaces[sp].crypto.is_none() || self.state.is_closed() {
+            return false;
+        }
+        self.verif_inject.push((sp, bytes));
+        self.spaces[sp].ping_pending = true;
+        true
+    }
+
+    /// Sizes of queues a hostile peer can feed (C03 boundedness probes):
+    /// [pending retire_cids, path_responses?, datagram recv_buffered, pending_acks ranges(Data)]
+    pub fn verif_queue_sizes(&self) -> Vec<i128> {
+        vec![
+            self.spaces[SpaceId::Data].pending.retire_cids.len() as i128,
+            !self.path_responses.is_empty() as i128,
+            self.datagrams.recv_buffered as i128,
+            self.spaces[SpaceId::Data].pending_acks.ranges().len() as i128,
+        ]
+    }
+}
+
 pub(crate) fn run(_comp: &str, _ops: &Ops) -> Option<Outs> {
     None
 }
